@@ -44,7 +44,7 @@ ASSUMPTIONS = [
     'engine B uses real OS scheduling: its oracle only contains clauses that hold under every interleaving; socket timeouts '
     '(10 s) are inconclusive',
 ]
-MIN_EVALUATIONS = {'quick': 60, 'thorough': 2000}
+MIN_EVALUATIONS = {'quick': 500, 'thorough': 5000}
 
 SPECS = [
     {'name': 'S', 'type': 'DINT', 'length': 6, 'address': None},
@@ -454,7 +454,35 @@ CLAUSES = {'schedule': pred_schedule, 'stress': pred_stress}
 STRATEGIES = {'schedule': lambda k: cases()}
 
 
+SWEEP_SCENARIOS = [
+    {'sessions': [[{'kind': 'ws'}], [{'kind': 'rs'}]]},
+    {'sessions': [[{'kind': 'rs'}], [{'kind': 'ws'}]]},
+    {'sessions': [[{'kind': 'bundle', 'members': ['ws', 'rp']}], [{'kind': 'bundle', 'members': ['rs', 'wp']}]]},
+    {'sessions': [[{'kind': 'ws'}, {'kind': 'rs'}], [{'kind': 'ws'}, {'kind': 'rs'}]]},
+]
+
+
+def sweep_length(scenario):
+    out = run_schedule(dict(scenario, schedule=[]))
+    # line events executed by thread 0 alone = those before the first hand-over
+    first = [sw for sw in out['sched'].switch_log if sw[3] == 'finished']
+    return first[0][4] if first else out['sched'].line_events      # line events thread 0 executes on its own
+
+
+def sweep_shard(job):
+    """Systematic single-preemption exploration: thread 0 is preempted after exactly n line events of request-processing
+    code, thread 1 then runs to completion, thread 0 resumes -- for every n in the job's range."""
+    _, si, ns = job
+    s = Stats()
+    for n in ns:
+        case = dict(SWEEP_SCENARIOS[si], schedule=[['line', n, 1]])
+        common.run_pred(pred_schedule, case, s, 'schedule')
+    return s
+
+
 def shard(job):
+    if job[0] == 'sweep':
+        return sweep_shard(job)
     if job[0] == 'B':
         out = Stats()
         for r in range(job[2]):
@@ -466,9 +494,29 @@ def shard(job):
     return s
 
 
+def measure_sweeps(job):
+    s = Stats()
+    s.extra['sweep_lengths'] = [sweep_length(sc) for sc in SWEEP_SCENARIOS]
+    return s
+
+
 def run(tier, seed):
+    stats = Stats()
+    m = common.parallel(measure_sweeps, [0], fork=True)
+    lengths = m.extra['sweep_lengths']
+    scenarios = range(len(SWEEP_SCENARIOS)) if tier == 'thorough' else [0]
+    jobs = []
+    for si in scenarios:
+        # thread 0's own share of the line events is at most the whole run's; preempting later than that is a no-op
+        ns = list(range(1, lengths[si] + 2, 1 if tier == 'thorough' else 2))
+        nsh = 16
+        jobs += [('sweep', si, ns[i::nsh]) for i in range(nsh)]
+        stats.exhaustive['single-preemption sweep, scenario %d' % si] = (
+            'thread 0 preempted after every %snumber n of line events in 1..%d of device.py/logix.py/ucmm.py/lock handling, '
+            'thread 1 runs to completion, thread 0 resumes' % ('' if tier == 'thorough' else 'second ', lengths[si] // 2 + 199))
     if tier == 'thorough':
-        jobs = [('A', seed, i, 120) for i in range(28)] + [('B', seed, 40), ('B', seed + 1, 40)]
+        jobs += [('A', seed, i, 120) for i in range(28)] + [('B', seed, 40), ('B', seed + 1, 40)]
     else:
-        jobs = [('A', seed, i, 16) for i in range(15)] + [('B', seed, 6)]
-    return common.parallel(shard, jobs)
+        jobs += [('A', seed, i, 16) for i in range(15)] + [('B', seed, 6)]
+    common.parallel(shard, jobs, stats=stats)
+    return stats
